@@ -36,10 +36,15 @@ package c02
 //
 // Observation: one entry per request issued, in order
 //
-//	(new <rpc> <state> <after> (<i> ...) [running-acked | verdict-lost])   NewEnvironment  (DEPLOY + CONFIGURE); cmd = tasks
-//	                                               the CONFIGURE went to; the two atoms only when DEPLOY failed although every
-//	                                               task was scripted to start (see below)
-//	(new <rpc> <state> <after> (<i> ...) [running-acked] (att (<i> ...) ...) [verdict-lost])   …of a scenario with an
+//	(new <rpc> <state> <after> (<i> ...) [running-acked | active-unseen | verdict-lost])   NewEnvironment  (DEPLOY +
+//	                                               CONFIGURE); cmd = tasks the CONFIGURE went to; the three atoms only when
+//	                                               DEPLOY failed although every task was scripted to start (see below):
+//	                                               running-acked = every TASK_RUNNING was acknowledged by the core well before
+//	                                               it gave up and its time-out error lists a role that was not ACTIVE;
+//	                                               active-unseen = the same, but the error lists NO role that was not ACTIVE
+//	                                               (the core gave up with every role ACTIVE: the model of the code as it is
+//	                                               never answers it)
+//	(new <rpc> <state> <after> (<i> ...) [running-acked | active-unseen] (att (<i> ...) ...) [verdict-lost])   …of a scenario with an
 //	                                               `offers` element: one list per deployment attempt (REVIVE call seen by
 //	                                               the master) with the tasks launched in it (ACCEPT calls up to the next
 //	                                               REVIVE); verdict-lost: the request failed and a goroutine dump of the
@@ -68,7 +73,9 @@ import (
 	"os"
 	"os/exec"
 	"path/filepath"
+	"regexp"
 	"sort"
+	"strconv"
 	"strings"
 	"time"
 
@@ -637,6 +644,24 @@ func idleDeaths(w *sim.World, sc *scenario, st stepSpec) error {
 	})
 }
 
+// rolesNotActive reads the core's own account out of the error DEPLOY's time-out branch returns (transition_deploy.go:
+// "workflow deployment timed out (…), aborting and cleaning up [N undeployable roles: …; M inactive roles: …]", the roles
+// listed being every leaf role whose status is not ACTIVE when the loop gives up): N + M, and whether the text was found.
+var deployTimedOutRe = regexp.MustCompile(`workflow deployment timed out \([^)]*\), aborting and cleaning up \[(\d+) undeployable roles: [^;]*; (\d+) inactive roles:`)
+
+func rolesNotActive(err error) (n int, found bool) {
+	if err == nil {
+		return 0, false
+	}
+	m := deployTimedOutRe.FindStringSubmatch(err.Error())
+	if m == nil {
+		return 0, false
+	}
+	a, _ := strconv.Atoi(m[1])
+	b, _ := strconv.Atoi(m[2])
+	return a + b, true
+}
+
 func allLaunchOk(sc *scenario) bool {
 	for _, t := range sc.tasks {
 		if t.launch != "ok" {
@@ -1103,7 +1128,17 @@ func runScenario(in string) (string, error) {
 		if !runningAckedBy(w, mark, len(sc.tasks), replied.Add(-3*time.Second), only) {
 			return "", &sim.InfraError{What: "DEPLOY failed and the core had not acknowledged every TASK_RUNNING 3 s before"}
 		}
-		newObs.Add(sx.A("running-acked"))
+		// Which of the two ways to miss a running workflow? The core says so itself: its time-out error lists every role
+		// that was not ACTIVE when the loop gave up. Some role listed: a status update did not reach its role (the open
+		// finding deploy_misses_active: TASK_RUNNING handled before the task was in the roster) — `running-acked`, the only
+		// licence for that hypothesis. None listed: every role WAS active and the loop did not get to know (the former
+		// mechanism (b) of that finding, repaired by `fix: DEPLOY cannot miss that the workflow became active`) —
+		// `active-unseen`, which the model of the code as it is never answers.
+		if n, found := rolesNotActive(res.err); found && n == 0 {
+			newObs.Add(sx.A("active-unseen"))
+		} else {
+			newObs.Add(sx.A("running-acked"))
+		}
 	}
 	if sc.hasOffers {
 		a := sx.L(sx.A("att"))
